@@ -1118,6 +1118,16 @@ def fixed_shapes():
     add("flagsTail2", [nat("fm"), Field("x", st()), Field("a", T("true", boxed=True), m("fm", 0)), Field("b", T("true", boxed=True), m("fm", 3)), Field("c", tr(), m("fm", 4))])
     add("holderTail", [Field("v", T("vector", elem=T("ref", decl=ft, bare=True, pct=False, args=[]), form="bare")), Field("w", T("ref", decl=ft, bare=False, pct=False, args=[]))])
     add("bigstr", [Field("s", st()), Field("t", T("vector", elem=st(), form="bare")), Field("u", T("dict", key="str", elem=i32(), boxed=False))])
+
+    # '# x:[T]' pairs (merged into one field by the kernel) followed by '#' fields that later fields refer to as sizes and masks
+    def pair(name, elem):
+        f = Field(name, T("vector", elem=elem, form="bare"))
+        f.anon = True
+        return f
+    add("pairThenNats", [pair("xs", i32()), nat("n", "size"), nat("fm"), Field("ys", i32(), arr=NatExpr("field", "n")), Field("opt", st(), m("fm", 0)), Field("flag", tr(), m("fm", 1)), Field("tail", i32())])
+    add("twoPairsThenNats", [Field("a", i32()), pair("xs", st()), pair("zs", i32()), nat("n", "size"), nat("k", "size"), nat("fm"), Field("ys", i32(), arr=NatExpr("field", "n")),
+                             Field("ws", st(), arr=NatExpr("field", "k")), Field("opt", i32(), m("fm", 2))])
+    add("natPairNat", [nat("n", "size"), pair("xs", i32()), nat("k", "size"), Field("ys", i32(), arr=NatExpr("field", "n")), Field("ws", i32(), arr=NatExpr("field", "k"))])
     return s
 
 
